@@ -209,13 +209,19 @@ impl Storage {
                                 .map_err(map_random_access_err)?;
                         }
                     } else {
-                        storage
+                        match storage
                             .del(
                                 info.index,
                                 info.length.expect("When deleting, length must be given"),
                             )
                             .await
-                            .map_err(map_random_access_err)?;
+                        {
+                            Ok(()) => {}
+                            // The range starts beyond the end of the store (an earlier delete
+                            // that reached the end has truncated it): nothing left to delete.
+                            Err(RandomAccessError::OutOfBounds { .. }) => {}
+                            Err(err) => return Err(map_random_access_err(err)),
+                        }
                     }
                 }
                 StoreInfoType::Size => {
